@@ -80,18 +80,51 @@ func attemptB2i(b bool) int {
 	return 0
 }
 
+// attemptFails counts the MONITOR lines of the running scenario: every failed monitor costs a deadline, so a scenario stops
+// generating cases after a few of them (the verdict is already decided).
+var attemptFails int
+
+const attemptMaxFails = 4
+
+func attemptMonitor(h *hctx, format string, args ...interface{}) {
+	attemptFails++
+	h.line("MONITOR C20 "+format, args...)
+}
+
+func attemptCutShort(h *hctx, i int) bool {
+	if attemptFails >= attemptMaxFails {
+		h.line("MONITOR C20 scenario cut short after %d failed monitors (%d of %d cases run)", attemptFails, i, h.n)
+		return true
+	}
+	return false
+}
+
 func init() {
 	register("C20K1", func(h *hctx) {
+		attemptFails = 0
 		attemptConsts(h)
 		attemptInvalid(h)
 		for i := 0; i < h.n; i++ {
+			if attemptCutShort(h, i) {
+				break
+			}
 			attemptK1Case(h, i)
 		}
 	})
+	// C20T: per unit of n, one case with a millisecond-scale ticker and `race` cases with a microsecond-scale ticker (a tick
+	// is pending at almost every select, so the select between ctx.Done and the tick is a real race after the cancellation)
 	register("C20T", func(h *hctx) {
+		attemptFails = 0
 		attemptConsts(h)
+		race := h.pi("race", 4)
 		for i := 0; i < h.n; i++ {
-			attemptTimedCase(h, i)
+			if attemptCutShort(h, i) {
+				break
+			}
+			attemptTimedCase(h, i*(race+1), false)
+			for k := 1; k <= race; k++ {
+				attemptTimedCase(h, i*(race+1)+k, true)
+			}
 		}
 	})
 }
@@ -104,7 +137,7 @@ func attemptConsts(h *hctx) {
 	h.line("F attempt_consts consts-%d | %d", h.seed, cap(c))
 	cancel()
 	if !attemptWaitGone(base, 2*time.Second) {
-		h.line("MONITOR C20 consts: producer goroutine still alive 2s after cancel (count=2 rate=1h)")
+		attemptMonitor(h, "consts: producer goroutine still alive 2s after cancel (count=2 rate=1h)")
 	}
 }
 
@@ -156,7 +189,7 @@ func attemptK1Case(h *hctx, id int) {
 		cancel()
 		cancelled = true
 		if !attemptWaitGone(base, settleDeadline) {
-			h.line("MONITOR C20 %s: producer goroutine still alive %v after cancel (count=%d rate=%v)", caseid(), settleDeadline, count, rate)
+			attemptMonitor(h, "%s: producer goroutine still alive %v after cancel (count=%d rate=%v)", caseid(), settleDeadline, count, rate)
 		}
 		ops = append(ops, []int{1})
 		outs = append(outs, []int{1})
@@ -198,7 +231,7 @@ func attemptK1Case(h *hctx, id int) {
 				return true
 			}
 			if time.Now().After(end) {
-				h.line("MONITOR C20 %s: producer neither parked with a full buffer nor gone after %v (len=%d cap=%d producers=%d)",
+				attemptMonitor(h, "%s: producer neither parked with a full buffer nor gone after %v (len=%d cap=%d producers=%d)",
 					caseid(), settleDeadline, l, cap(c), n-base)
 				ops = append(ops, []int{3})
 				outs = append(outs, []int{5, l, 1})
@@ -267,47 +300,139 @@ func attemptK1Case(h *hctx, id int) {
 // ---------------------------------------------------------------------------------------------------------------------
 // timed cases: real tickers, receiver paces and cancellation instants from the seed
 // ---------------------------------------------------------------------------------------------------------------------
-func attemptTimedCase(h *hctx, id int) {
+type attemptParams struct {
+	count, pace, slowK, plan, j int
+	rate, off, deadline         time.Duration
+	cancelBeforeFirst           bool
+}
+
+type attemptObs struct {
+	nrecv, nafter, maxLen                                            int
+	cancelledBeforeClose, closedSeen, firstImm, sorted, exited, late bool
+}
+
+func attemptTimedCase(h *hctx, id int, race bool) {
 	rng := h.rng
-	count := 1 + rng.Intn(6)
-	var rate time.Duration
+	var p attemptParams
+	p.count = 1 + rng.Intn(6)
 	switch r := rng.Intn(100); {
 	case r < 65:
-		rate = time.Duration(2000+rng.Intn(3001)) * time.Microsecond // 2..5 ms
+		p.rate = time.Duration(2000+rng.Intn(3001)) * time.Microsecond // 2..5 ms
 	case r < 82:
-		rate = time.Duration(200+rng.Intn(800)) * time.Microsecond
+		p.rate = time.Duration(200+rng.Intn(800)) * time.Microsecond
 	default:
-		rate = time.Duration(1+rng.Intn(40)) * time.Microsecond // a tick is pending at almost every select
+		p.rate = time.Duration(1+rng.Intn(40)) * time.Microsecond // a tick is pending at almost every select
 	}
-	pace := rng.Intn(3)      // 0 prompt | 1 slow | 2 absent for a while, then prompt
-	slowK := 1 + rng.Intn(3) // slow: sleeps slowK*rate between receives
-	plan := 0                // 0 never cancel | 1 timer | 2 after the j-th receive | 3 right after the call | 4 before the call
+	p.pace = rng.Intn(3)      // 0 prompt | 1 slow | 2 absent for a while, then prompt
+	p.slowK = 1 + rng.Intn(3) // slow: sleeps slowK*rate between receives
+	// plan: 0 never cancel | 1 timer | 2 after the j-th receive | 3 right after the call | 4 before the call
 	switch r := rng.Intn(100); {
 	case r < 30:
-		plan = 0
+		p.plan = 0
 	case r < 60:
-		plan = 1
+		p.plan = 1
 	case r < 82:
-		plan = 2
+		p.plan = 2
 	case r < 92:
-		plan = 3
+		p.plan = 3
 	default:
-		plan = 4
+		p.plan = 4
 	}
-	j := 1 + rng.Intn(count)
+	if race {
+		p.count = 8 + rng.Intn(60)
+		p.rate = time.Duration(1+rng.Intn(5)) * time.Microsecond
+		p.pace = 0
+		if rng.Intn(4) == 0 {
+			p.pace = 1
+			p.slowK = 1
+		}
+		p.plan = 2
+		if rng.Intn(5) == 0 {
+			p.plan = 1
+		}
+	}
+	p.j = 1 + rng.Intn(p.count)
 	paceFactor := 1
-	if pace == 1 {
-		paceFactor = 1 + slowK
+	if p.pace == 1 {
+		paceFactor = 1 + p.slowK
 	}
-	off := time.Duration(rng.Int63n(int64(rate)*int64(count+1)*int64(paceFactor) + 1))
-	deadline := 20*rate + 200*time.Millisecond
-	if deadline < 400*time.Millisecond {
-		deadline = 400 * time.Millisecond
+	p.off = time.Duration(rng.Int63n(int64(p.rate)*int64(p.count+1)*int64(paceFactor) + 1))
+	p.cancelBeforeFirst = rng.Intn(2) == 0
+	p.deadline = 20*p.rate + 200*time.Millisecond
+	if p.deadline < 400*time.Millisecond {
+		p.deadline = 400 * time.Millisecond
 	}
 	caseid := "t-" + strconv.FormatInt(h.seed, 10) + "-" + strconv.Itoa(id)
-	h.count("t_pace_"+[]string{"prompt", "slow", "absent"}[pace], 1)
-	h.count("t_plan_"+[]string{"never", "timer", "afterj", "aftercall", "precancelled"}[plan], 1)
+	if race {
+		h.count("t_race_cases", 1)
+	} else {
+		h.count("t_pace_"+[]string{"prompt", "slow", "absent"}[p.pace], 1)
+		h.count("t_plan_"+[]string{"never", "timer", "afterj", "aftercall", "precancelled"}[p.plan], 1)
+	}
 
+	o := attemptRunTimed(p)
+	if !o.sorted {
+		// The order of the values is the order of the ticker's own timestamps, and time.Ticker computes them as
+		// Now()-delta with two separate clock readings: with periods below its jitter a raw Ticker already yields
+		// decreasing pairs (measured: 27 of 20000 at 1us). Timestamps are therefore compared only for periods >= 1ms,
+		// only decreases of more than half a period count, and a case is reported only if it reproduces.
+		h.count("t_unordered_first_run", 1)
+		if o2 := attemptRunTimed(p); o2.sorted {
+			h.count("t_unordered_not_reproduced", 1)
+			o.sorted = true
+		}
+	}
+	if o.nafter > 0 {
+		h.count("t_cases_with_values_after_cancel", 1)
+	}
+	if o.nafter >= 2 {
+		h.count("t_cases_with_two_after_cancel", 1)
+	}
+	if o.cancelledBeforeClose && o.nrecv > 0 && o.nrecv < p.count {
+		h.count("t_cases_cut_short_by_cancel", 1)
+	}
+	if !o.cancelledBeforeClose && o.closedSeen {
+		h.count("t_cases_completed", 1)
+	}
+	pre := p.plan == 4
+	desc := func() string {
+		return caseid + " count=" + strconv.Itoa(p.count) + " rate=" + p.rate.String() + " pace=" + strconv.Itoa(p.pace) +
+			" plan=" + strconv.Itoa(p.plan) + " nrecv=" + strconv.Itoa(o.nrecv) + " nafter=" + strconv.Itoa(o.nafter) +
+			" maxlen=" + strconv.Itoa(o.maxLen)
+	}
+	if o.nrecv > p.count {
+		attemptMonitor(h, "more than count values received: %s", desc())
+	}
+	if o.maxLen > 1 {
+		attemptMonitor(h, "more than one value buffered (len(c)=%d): %s", o.maxLen, desc())
+	}
+	if !o.closedSeen {
+		attemptMonitor(h, "channel not closed (next receive did not complete within %v): %s", p.deadline, desc())
+	}
+	if o.nafter > 2 {
+		attemptMonitor(h, "more than two values received by receives begun after cancel() returned: %s", desc())
+	}
+	if !pre && !o.firstImm {
+		attemptMonitor(h, "first value not available immediately after LinearAttempt returned: %s", desc())
+	}
+	if pre && o.nrecv > 0 {
+		attemptMonitor(h, "values delivered although the context was cancelled before the call: %s", desc())
+	}
+	if !o.sorted {
+		attemptMonitor(h, "timestamps decreased by more than half a period, reproducibly: %s", desc())
+	}
+	if !o.exited {
+		attemptMonitor(h, "producer goroutine still alive %v after cancel: %s", p.deadline, desc())
+	}
+	if o.closedSeen && !o.cancelledBeforeClose && o.nrecv != p.count {
+		attemptMonitor(h, "closed without cancellation after %d of %d values: %s", o.nrecv, p.count, desc())
+	}
+	h.line("F attempt_obs %s %d %d %d %d %d %d %d %d %d %d | 1", caseid, p.count, o.nrecv, o.maxLen, o.nafter, attemptB2i(pre),
+		attemptB2i(o.cancelledBeforeClose), attemptB2i(o.closedSeen), attemptB2i(o.firstImm), attemptB2i(o.sorted), attemptB2i(o.exited))
+}
+
+// attemptRunTimed uses one channel of LinearAttempt from the call to the close, as laid out by p, and reports what it saw.
+func attemptRunTimed(p attemptParams) (o attemptObs) {
 	ctx, cancel := context.WithCancel(context.Background())
 	var cancelInvoked, cancelDone atomic.Bool
 	var cancelOnce sync.Once
@@ -320,10 +445,10 @@ func attemptTimedCase(h *hctx, id int) {
 	}
 	defer cancel()
 	base, _ := attemptProducers()
-	if plan == 4 {
+	if p.plan == 4 {
 		doCancel()
 	}
-	c := LinearAttempt(ctx, rate, count)
+	c := LinearAttempt(ctx, p.rate, p.count)
 
 	// len(c) sampler
 	var maxLen atomic.Int32
@@ -352,11 +477,11 @@ func attemptTimedCase(h *hctx, id int) {
 			time.Sleep(40 * time.Microsecond)
 		}
 	}()
-	if plan == 1 {
+	if p.plan == 1 {
 		wg.Add(1)
 		go func() {
 			defer wg.Done()
-			t := time.NewTimer(off)
+			t := time.NewTimer(p.off)
 			defer t.Stop()
 			select {
 			case <-t.C:
@@ -366,23 +491,23 @@ func attemptTimedCase(h *hctx, id int) {
 		}()
 	}
 
-	nrecv, nafter := 0, 0
-	closedSeen, firstImm, sorted, timedOut := false, false, true, false
+	o.sorted = true
+	timedOut := false
 	var last time.Time
 	got := func(v time.Time, after bool) {
-		nrecv++
+		o.nrecv++
 		if after {
-			nafter++
+			o.nafter++
 		}
-		if nrecv > 1 && v.Before(last) {
-			sorted = false
+		if o.nrecv > 1 && p.rate >= time.Millisecond && last.Sub(v) > p.rate/2 {
+			o.sorted = false
 		}
 		last = v
-		if plan == 2 && nrecv == j {
+		if p.plan == 2 && o.nrecv == p.j {
 			doCancel()
 		}
 	}
-	if plan == 3 && rng.Intn(2) == 0 {
+	if p.plan == 3 && p.cancelBeforeFirst {
 		doCancel()
 	}
 	// the first value must be there without waiting
@@ -391,96 +516,50 @@ func attemptTimedCase(h *hctx, id int) {
 		select {
 		case v, ok := <-c:
 			if ok {
-				firstImm = true
+				o.firstImm = true
 				got(v, f)
 			} else {
-				closedSeen = true
+				o.closedSeen = true
 			}
 		default:
 		}
 	}
-	if plan == 3 {
+	if p.plan == 3 {
 		doCancel()
 	}
-	if pace == 2 && !closedSeen {
+	if p.pace == 2 && !o.closedSeen {
 		// absent: the producer keeps retrying into a full or empty buffer meanwhile
-		d := time.Duration(count+2) * rate
+		d := time.Duration(p.count+2) * p.rate
 		if d < 2*time.Millisecond {
 			d = 2 * time.Millisecond
 		}
 		time.Sleep(d)
 	}
-	for !closedSeen && !timedOut && nrecv <= count+3 {
-		if pace == 1 {
-			time.Sleep(time.Duration(slowK) * rate)
+	for !o.closedSeen && !timedOut && o.nrecv <= p.count+3 {
+		if p.pace == 1 {
+			time.Sleep(time.Duration(p.slowK) * p.rate)
 		}
 		sample()
 		f := cancelDone.Load()
-		t := time.NewTimer(deadline)
+		t := time.NewTimer(p.deadline)
 		select {
 		case v, ok := <-c:
 			if ok {
 				got(v, f)
 			} else {
-				closedSeen = true
+				o.closedSeen = true
 			}
 		case <-t.C:
 			timedOut = true
 		}
 		t.Stop()
 	}
-	cancelledBeforeClose := cancelInvoked.Load()
-	if nafter > 0 {
-		h.count("t_cases_with_values_after_cancel", 1)
-	}
-	if nafter >= 2 {
-		h.count("t_cases_with_two_after_cancel", 1)
-	}
-	if cancelledBeforeClose && nrecv > 0 && nrecv < count {
-		h.count("t_cases_cut_short_by_cancel", 1)
-	}
-	if !cancelledBeforeClose && closedSeen {
-		h.count("t_cases_completed", 1)
-	}
+	o.cancelledBeforeClose = cancelInvoked.Load()
 	doCancel()
-	exited := attemptWaitGone(base, deadline)
+	o.exited = attemptWaitGone(base, p.deadline)
 	close(stop)
 	wg.Wait()
 	sample()
-	ml := int(maxLen.Load())
-
-	pre := plan == 4
-	desc := func() string {
-		return caseid + " count=" + strconv.Itoa(count) + " rate=" + rate.String() + " pace=" + strconv.Itoa(pace) + " plan=" + strconv.Itoa(plan) +
-			" nrecv=" + strconv.Itoa(nrecv) + " nafter=" + strconv.Itoa(nafter) + " maxlen=" + strconv.Itoa(ml)
-	}
-	if nrecv > count {
-		h.line("MONITOR C20 more than count values received: %s", desc())
-	}
-	if ml > 1 {
-		h.line("MONITOR C20 more than one value buffered (len(c)=%d): %s", ml, desc())
-	}
-	if !closedSeen {
-		h.line("MONITOR C20 channel not closed (next receive did not complete within %v): %s", deadline, desc())
-	}
-	if nafter > 2 {
-		h.line("MONITOR C20 more than two values received by receives begun after cancel() returned: %s", desc())
-	}
-	if !pre && !firstImm {
-		h.line("MONITOR C20 first value not available immediately after LinearAttempt returned: %s", desc())
-	}
-	if pre && nrecv > 0 {
-		h.line("MONITOR C20 values delivered although the context was cancelled before the call: %s", desc())
-	}
-	if !sorted {
-		h.line("MONITOR C20 timestamps decreased: %s", desc())
-	}
-	if !exited {
-		h.line("MONITOR C20 producer goroutine still alive %v after cancel: %s", deadline, desc())
-	}
-	if closedSeen && !cancelledBeforeClose && nrecv != count {
-		h.line("MONITOR C20 closed without cancellation after %d of %d values: %s", nrecv, count, desc())
-	}
-	h.line("F attempt_obs %s %d %d %d %d %d %d %d %d %d %d | 1", caseid, count, nrecv, ml, nafter, attemptB2i(pre), attemptB2i(cancelledBeforeClose),
-		attemptB2i(closedSeen), attemptB2i(firstImm), attemptB2i(sorted), attemptB2i(exited))
+	o.maxLen = int(maxLen.Load())
+	return
 }
